@@ -55,17 +55,64 @@ def lcd_observed(kernel, g):
     return obs
 
 
+def _with_bumps(seq):
+    """the family's register instructions change their destination by an unknown amount"""
+    out = []
+    for r in seq:
+        if r.loads or r.stores:
+            out.append(r)
+            continue
+        q = RD.RI(r.text, r.reads, r.writes, wb=r.wb, lat=r.lat, lat_exec=r.lat_exec,
+                  load_node=r.load_node, tag=r.tag,
+                  post_changes={w: None for w in r.writes if not RD.is_flag(w)})
+        out.append(q)
+    return out
+
+
 def compare_lcd(fam, fe, ris, kernel, g, flags):
     """-> problems [(kind, what)], n comparisons, skipped (ambiguous weight)"""
     n = len(ris)
-    E2 = RD.raw_edges(list(ris) + list(ris), flags, fam.p_index if fam.p_index is not None else 1.0)
-    if any(len(w) > 1 for w in E2.values()):
-        return [], 0, 1, None
-    E2 = {e: next(iter(w)) for e, w in E2.items()}
-    exp = RD.lcd_cycles(n, E2)
+    seq2 = list(ris) + list(ris)
+    E2w = {e: set(w) for e, w in RD.raw_edges(
+        seq2, flags, fam.p_index if fam.p_index is not None else 1.0).items()}
+    # store -> load dependencies through provably equal addresses (C06) close cycles as well;
+    # register changes are unknown to the register relation (bumps by other instructions are
+    # reads and writes of the base register there), so they are derived here
+    mem = RD.memdep_edges(_with_bumps(seq2))
+    for e, verdict in mem.items():
+        i, j = e
+        memw = {seq2[i].lat + fam.s2l, seq2[i].lat_exec + fam.s2l}
+        if verdict == "required":
+            E2w.setdefault(e, set()).update(memw)
+        elif verdict == "unspecified":
+            E2w.setdefault(e, set()).update(memw)
+            if e not in RD.raw_edges(seq2, flags, 1.0):
+                E2w[e].add(None)   # the edge may be absent
     obs = lcd_observed(kernel, g)
-    probs = []
     got = set((m, l) for m, l, _, _ in obs)
+    amb = sorted(e for e, w in E2w.items() if len(w) > 1)
+    ncomb = 1
+    for e in amb:
+        ncomb *= len(E2w[e])
+    if ncomb > 256:
+        return [], 0, 1, None
+    # an edge reached through the data register and through the write-back register (or through
+    # a register and through memory) may carry either weight: the report has to agree with one
+    # consistent choice for these edges
+    exp = None
+    for choice in itertools.product(*[sorted(E2w[e], key=lambda x: (x is None, x)) for e in amb]):
+        pick = dict(zip(amb, choice))
+        E2 = {}
+        for e, w in E2w.items():
+            v = pick[e] if e in pick else next(iter(w))
+            if v is not None:
+                E2[e] = v
+        cand = RD.lcd_cycles(n, E2)
+        if exp is None or cand == got:
+            exp = cand
+        if cand == got:
+            break
+    probs = []
     if len(got) != len(obs):
         probs.append(("duplicate", "a cycle is reported more than once: %r" % (obs,)))
     for m, l in sorted(exp - got):
@@ -102,6 +149,7 @@ def compare_lcd(fam, fe, ris, kernel, g, flags):
     elif col:
         probs.append(("column", "LCD column %r although there is no cycle" % col))
     return probs, len(exp | got) + 2, 0, (tuple(sorted(got)), mx)
+
 
 
 def _work(item):
